@@ -207,7 +207,7 @@ fn deviations(toks: &[Tok]) -> Vec<Dev> {
             let zero_ok = if both_wordish {
                 (l.kind == K::Word && t.kind != K::Word && l.text != "REM" && l.text != "FN" && l.text != "DATA")
                     || (t.kind == K::Word && l.kind == K::Ident && l.text.len() == 1 && "IJ".contains(&l.text))
-                    || (t.kind == K::Word && l.kind == K::Num && !t.text.starts_with('E') && !t.text.starts_with('D'))
+                    || (t.kind == K::Word && l.kind == K::Num && !l.text.starts_with('&'))
             } else {
                 true
             };
@@ -526,6 +526,9 @@ pub fn language_lines() -> Vec<&'static str> {
         "PRINT &HFF;&H1A+&HA;&7+&17",
         "PRINT 1.5E+2;1.5E-2;.5D+1;5.D-1",
         "IF A THEN PRINT 1E2 ELSE PRINT 1D2",
+        "IF A THEN PRINT 200*200 ELSE PRINT 20 EQV 3",
+        "IF A THEN B=7 ELSE C=5 IMP 2:DATA 1",
+        "FOR I=1 TO 20 STEP 2:PRINT I MOD 3 AND 1 OR 4 XOR 2:NEXT",
     ]
 }
 
